@@ -4,7 +4,9 @@
 package c01
 
 import (
+	"errors"
 	"fmt"
+	"time"
 
 	"verif/internal/b2fx"
 	"verif/internal/mem"
@@ -76,7 +78,16 @@ func runScenario(o *vrt.Obs, sc *b2fx.Scenario, tag string) {
 	}
 	// one scenario in three runs on a link with flow control (1, 7 or 200 bytes in flight per direction)
 	capacity := []int{0, 0, 0, 0, 0, 0, 1, 7, 200}[(len(sc.MsgsA)*7+len(sc.MsgsB)*3+sc.Seg)%9]
-	res, _ := b2fx.RunPair(sa, sb, vpipe.Plan{Seed: 1, Seg: sc.Seg, CutDir: vpipe.NoCut, Capacity: capacity}, false)
+	plan := vpipe.Plan{Seed: 1, Seg: sc.Seg, CutDir: vpipe.NoCut, Capacity: capacity}
+	// one scenario in four is a LONG exchange: after the first 150 / 600 / 4000 bytes two minutes pass on the link's
+	// own clock (a slow radio link; the run itself stays fast). Deadlines a station has set on its connection are
+	// honoured on that clock, as a net.Conn honours them.
+	if k := (len(sc.MsgsA)*3 + len(sc.MsgsB)*5 + sc.Seg) % 4; k == 1 {
+		plan.ClockJump = 2 * time.Minute
+		plan.ClockJumpAfter = []int64{150, 600, 4000}[(len(sc.MsgsA)+len(sc.MsgsB))%3]
+		o.Count("sessions_lasting_more_than_two_minutes_on_the_link_clock", 1)
+	}
+	res, _ := b2fx.RunPair(sa, sb, plan, false)
 	if capacity > 0 {
 		o.Count("sessions_on_flow_controlled_link", 1)
 	}
@@ -107,6 +118,18 @@ func runScenario(o *vrt.Obs, sc *b2fx.Scenario, tag string) {
 	}
 }
 
+// genProblem: a generator error is a harness problem (inconclusive) - except when the library itself calls a generated
+// message valid and then cannot serialise it: that message could be queued and would never be delivered.
+func genProblem(o *vrt.Obs, i int, err error) {
+	var ue *b2fx.UnserialisableError
+	if errors.As(err, &ue) {
+		o.Evals++
+		o.Violate("valid-message-cannot-be-serialised", "scenario %d: %v", i, err)
+		return
+	}
+	o.Inconclusive = append(o.Inconclusive, fmt.Sprintf("scenario %d: generator: %v", i, err))
+}
+
 func run(c vrt.Case) vrt.Obs {
 	var p params
 	vrt.Params(c, &p)
@@ -125,7 +148,7 @@ func run(c vrt.Case) vrt.Obs {
 			r := vrt.Rand(p.Seed, "c01split", i)
 			sc, err := b2fx.GenScenario(r, 8)
 			if err != nil {
-				o.Inconclusive = append(o.Inconclusive, fmt.Sprintf("scenario %d: generator: %v", i, err))
+				genProblem(&o, i, err)
 				continue
 			}
 			gzA := i%2 == 0
@@ -161,7 +184,7 @@ func run(c vrt.Case) vrt.Obs {
 				r := vrt.Rand(p.Seed, "c01", i)
 				sc, err := b2fx.GenScenario(r, 13)
 				if err != nil {
-					po.Inconclusive = append(po.Inconclusive, fmt.Sprintf("scenario %d: generator: %v", i, err))
+					genProblem(po, i, err)
 					continue
 				}
 				sc.Gzip = false
@@ -175,7 +198,7 @@ func run(c vrt.Case) vrt.Obs {
 		r := vrt.Rand(p.Seed, "c01", i)
 		sc, err := b2fx.GenScenario(r, 13)
 		if err != nil {
-			o.Inconclusive = append(o.Inconclusive, fmt.Sprintf("scenario %d: generator: %v", i, err))
+			genProblem(&o, i, err)
 			continue
 		}
 		runScenario(&o, sc, fmt.Sprintf("s%d", i))
